@@ -937,7 +937,10 @@ impl<'de> Deserialize<'de> for CompoundType {
     where
         D: Deserializer<'de>,
     {
-        Type::deserialize(deserializer).map(Self::from)
+        let ty = Type::deserialize(deserializer)?;
+        Self::checked_from_type(ty).ok_or_else(|| {
+            serde::de::Error::custom("type has too many nested layers to be represented")
+        })
     }
 }
 
@@ -954,16 +957,23 @@ impl CompoundType {
     /// Converts a [`Type`] into a [`CompoundType`].
     #[inline]
     pub const fn from_type(ty: Type) -> Self {
-        match match ty {
+        match Self::checked_from_type(ty) {
+            Some(ty) => ty,
+            None => panic!("Could not convert type to compound type"),
+        }
+    }
+
+    /// Converts a [`Type`] into a [`CompoundType`], or returns `None` if it
+    /// has more layers than a [`CompoundType`] can hold.
+    #[inline]
+    const fn checked_from_type(ty: Type) -> Option<Self> {
+        match ty {
             Type::Bool => Some(Self::new(PrimitiveType::Bool)),
             Type::Bytes => Some(Self::new(PrimitiveType::Bytes)),
             Type::Int => Some(Self::new(PrimitiveType::Int)),
             Type::Ip => Some(Self::new(PrimitiveType::Ip)),
             Type::Array(ty) => ty.push(Layer::Array),
             Type::Map(ty) => ty.push(Layer::Map),
-        } {
-            Some(ty) => ty,
-            None => panic!("Could not convert type to compound type"),
         }
     }
 
